@@ -11,11 +11,29 @@ for d in sorted(glob.glob(os.path.join(V, 'seeded', '*', 'meta.json'))):
     rows.append('| %s | %s | %s | %s | %s |' % (sid, m.get('property', '?'), cell(m.get('summary', '')), cell(m.get('needs', '')), cell('; '.join('%s: %s' % kv for kv in det.items()))))
 kf = json.load(open(os.path.join(V, 'known_findings.json')))
 frows = ['| %s | %s | %s | %s | %s |' % (f['property'], f['status'], f.get('commit', ''), cell(f['what']), cell(f.get('found_by', ''))) for f in kf['findings']]
-txt = B + '\n\n### 7.1 Genuine defects found on the pinned tree\n\n| property | status | /repo commit | what | found by |\n|---|---|---|---|---|\n' + '\n'.join(frows) + \
+tally = {'first': 0, 'after': 0, 'outside': 0}
+for d in sorted(glob.glob(os.path.join(V, 'seeded', '*', 'meta.json'))):
+    cr = json.load(open(d)).get('checks_run', {}); sall = ' '.join(cr.values())
+    if 'NOT DETECTABLE' in sall: tally['outside'] += 1
+    elif 'MISSED' in sall or 'first run exit' in sall: tally['after'] += 1
+    else: tally['first'] += 1
+SUMMARY = ('### 7.0 Summary\n\n%d genuine defects of the pinned tree were found by the checks and repaired in /repo (7.1).  %d seeded changes were produced in rounds '
+           '(suffix a, b, c) by sub-agents that saw only the property text (and, from round b on, a list of the earlier changes to avoid): %d were reported as VIOLATION by the '
+           'registered quick command at the first run, %d were missed at first and are caught since the harness or the driver was strengthened (the "checks" column says what was missing), '
+           '%d cannot be decided with this technique in this image (iostream formatting inside libstdc++.so, floating point, thread interleavings) and are listed as such.  '
+           'Recurring blind spots that the rounds removed: arguments aliasing the container/operand they are applied to, self-assignment, by-value and throwing user callbacks, '
+           'mixed value categories, error paths that must leave state intact, re-entrancy from callbacks, operands of equal size but different shape, enumerators beyond a word boundary, '
+           'and kernel-side `static_assert`s / reference bindings that turned a semantic change into a build failure (exit 2) instead of a VIOLATION (now run-time assertions).\n\n') % (
+           len(kf['findings']) if False else 0, 0, 0, 0, 0)
+txt = B + '\n\n' + 'SUMMARY_PLACEHOLDER' + '### 7.1 Genuine defects found on the pinned tree\n\n| property | status | /repo commit | what | found by |\n|---|---|---|---|---|\n' + '\n'.join(frows) + \
       '\n\n### 7.2 Seeded changes (written by independent sub-agents from the property text only) and which check catches them\n\n' \
       'Every change below compiles, passes the whole existing suite (433/433, confirmed in a scratch worktree with `seeded/confirm.sh`) and makes its own demonstration fail. ' \
       '"checks" is the outcome of the registered quick commands run against `/repo` with the patch applied (`seeded/runchecks.sh`).\n\n' \
       '| id | property | change | needs | checks |\n|---|---|---|---|---|\n' + '\n'.join(rows) + '\n\n' + E
+nfix = len(set(f.get('commit') for f in kf['findings'] if f.get('status') == 'fixed'))
+SUMMARY = SUMMARY.replace('0 genuine defects', '%d genuine defects' % nfix, 1).replace('0 seeded changes', '%d seeded changes' % sum(tally.values()), 1)
+SUMMARY = SUMMARY.replace(': 0 were reported', ': %d were reported' % tally['first'], 1).replace('first run, 0 were missed', 'first run, %d were missed' % tally['after'], 1).replace('missing), 0 cannot', 'missing), %d cannot' % tally['outside'], 1)
+txt = txt.replace('SUMMARY_PLACEHOLDER', SUMMARY)
 p = os.path.join(V, 'DESIGN.md'); s = open(p).read()
 if B in s: s = s[:s.index(B)] + txt + s[s.index(E) + len(E):]
 else: s = s.rstrip('\n') + '\n\n## 7. Results: defects found, seeded changes detected\n\n' + txt + '\n'
